@@ -679,6 +679,118 @@ func osBatch(c *vf.Ctx, dirName string, v osVariant, names []string, attribute b
 	return viol
 }
 
+// ---------------------------------------------------------------- mode C: a reference path that is (or runs through) a symlink to a directory
+
+type linkState struct {
+	pos    string // final | intermediate
+	where  string // inside-gitdir | outside-gitdir
+	target string // e1 (empty dir) | nest (nested empty dirs) | full (dir with a file) | mixed (empty dir + file)
+	abs    bool
+}
+
+func buildLinkCase(root string, ls linkState) (names []string, err error) {
+	if err := buildOSCase(root, osVariant{}, ""); err != nil {
+		return nil, err
+	}
+	gitdir := filepath.Join(root, "repo", ".git")
+	for _, base := range []string{filepath.Join(gitdir, "victimdirs"), filepath.Join(root, "outside", "victimdirs")} {
+		os.MkdirAll(filepath.Join(base, "e1"), 0o755)
+		os.MkdirAll(filepath.Join(base, "nest", "a", "b"), 0o755)
+		os.MkdirAll(filepath.Join(base, "nest", "c"), 0o755)
+		os.MkdirAll(filepath.Join(base, "full", "a"), 0o755)
+		os.WriteFile(filepath.Join(base, "full", "f"), []byte(goodHash+"\n"), 0o644)
+		os.MkdirAll(filepath.Join(base, "mixed", "sub"), 0o755)
+		os.WriteFile(filepath.Join(base, "mixed", "main"), []byte(goodHash+"\n"), 0o644)
+	}
+	base := filepath.Join(gitdir, "victimdirs")
+	if ls.where == "outside-gitdir" {
+		base = filepath.Join(root, "outside", "victimdirs")
+	}
+	link := filepath.Join(gitdir, "refs", "heads", "topic")
+	names = []string{"refs/heads/topic"}
+	if ls.pos == "intermediate" {
+		link = filepath.Join(gitdir, "refs", "heads", "link")
+		names = []string{"refs/heads/link/x", "refs/heads/link/a", "refs/heads/link/a/b", "refs/heads/link/main", "refs/heads/link/sub", "refs/heads/link"}
+	}
+	tgt := filepath.Join(base, ls.target)
+	if !ls.abs {
+		if tgt, err = filepath.Rel(filepath.Dir(link), tgt); err != nil {
+			return nil, err
+		}
+	}
+	return names, os.Symlink(tgt, link)
+}
+
+func linkCase(c *vf.Ctx, id int, ls linkState, plain bool, op string) {
+	root := filepath.Join(c.Scratch, fmt.Sprintf("lnk%d", id))
+	defer os.RemoveAll(root)
+	names, err := buildLinkCase(root, ls)
+	if err != nil {
+		c.Broken("build link case: %v", err)
+		return
+	}
+	st, closeFn, err := openOS(root, osVariant{plain: plain})
+	if err != nil {
+		c.Count("os_open_refused", 1)
+		return
+	}
+	defer closeFn()
+	skip := func(rel string) bool {
+		rel = filepath.ToSlash(rel)
+		if strings.HasPrefix(rel, "repo/.git/") {
+			return allowedRel(strings.TrimPrefix(rel, "repo/.git/"))
+		}
+		return false
+	}
+	before := fsguard.Snap(root, skip) // directories are entries too: a removed empty directory shows up
+	shape := ls.pos + ":" + ls.where + ":" + ls.target
+	for _, name := range names {
+		var err error
+		pv, stack := vf.Catch(func() { err = doOp(st, op, name) })
+		if pv != nil {
+			c.Fail("panic:"+op+":symlinked-ref", fmt.Sprintf("%s(%q) on %s panicked: %v\n%s", op, name, shape, pv, stack), map[string]any{"name": name, "op": op, "state": shape})
+			continue
+		}
+		c.Eval(vf.ShapeHash("symlinked-ref", shape, ls.abs, plain, op, outcome(err)), true)
+		c.Count("link_ops", 1)
+	}
+	c.Count("link_cases", 1)
+	after := fsguard.Snap(root, skip)
+	if d := fsguard.Diff(before, after, false); len(d) > 0 {
+		if ls.pos == "intermediate" && ls.where == "inside-gitdir" {
+			// refs/heads/link -> ../../victimdirs/x is a directory symlink that stays inside .git: go-git (through
+			// os.Root) and git both resolve "refs/heads/link/x" through it. Counted, not reported (see Assume).
+			c.Count("followed_dir_symlink_inside_gitdir", 1)
+			return
+		}
+		what := strings.SplitN(d[0], " ", 2)[0]
+		c.Fail("symlinked-ref:"+ls.pos+":"+ls.where+":"+op+":"+what,
+			fmt.Sprintf("%s on reference names %q, with %s component of the path a symlink to a directory (%s, %s, abs=%v): entries outside the refs hierarchy changed: %s", op, names, ls.pos, ls.where, ls.target, ls.abs, strings.Join(d, "; ")),
+			map[string]any{"names": names, "op": op, "state": shape, "abs": ls.abs, "plainopen": plain, "diff": d})
+	}
+}
+
+func runLinkCases(c *vf.Ctx) {
+	type job struct {
+		ls    linkState
+		plain bool
+		op    string
+	}
+	var jobs []job
+	for _, pos := range []string{"final", "intermediate"} {
+		for _, where := range []string{"inside-gitdir", "outside-gitdir"} {
+			for _, tgt := range []string{"e1", "nest", "full", "mixed"} {
+				for _, abs := range []bool{false, true} {
+					for oi, op := range []string{"set-hash", "set-symbolic", "cas", "remove", "pack", "iter", "get", "reflog-append", "reflog-delete"} {
+						jobs = append(jobs, job{linkState{pos, where, tgt, abs}, (oi+len(jobs))%2 == 0, op})
+					}
+				}
+			}
+		}
+	}
+	vf.Parallel(len(jobs), 8, func(i int) { linkCase(c, i, jobs[i].ls, jobs[i].plain, jobs[i].op) })
+}
+
 func run(c *vf.Ctx) {
 	g := gitx.New(c.Scratch)
 	_ = g
@@ -760,6 +872,10 @@ func run(c *vf.Ctx) {
 		}
 	})
 
+	// ---- mode C
+	runLinkCases(c)
+	c.Floor("cases with a symlinked reference path", c.Counter("link_cases"), 250)
+
 	c.Sample(map[string]any{"example_names": names[:3], "classes": []string{classify(names[0]), classify(names[1]), classify(names[2])}})
 	c.Sample(map[string]any{"example_hostile": []string{"refs/heads/../../config", "..\\..\\config", "refs/heads/.. /x", "config"}, "classes": []string{classify("refs/heads/../../config"), classify("..\\..\\config"), classify("refs/heads/.. /x"), classify("config")}})
 	c.Floor("names through memfs+recfs", c.Counter("mem_names"), c.N(2500, 25000))
@@ -770,6 +886,7 @@ func run(c *vf.Ctx) {
 	c.Floor("name classes", c.SeenCount("name_classes"), 14)
 	c.Floor("distinct (operation, outcome) pairs", c.SeenCount("outcomes"), 20)
 	c.Assume("allowed footprint: .git/refs/**, .git/logs/**, .git/packed-refs, .git/packed-refs.lock, .git/._packed-refs* and .git/.tmp/** (go-git's / billy's temp location for the packed-refs rewrite), top-level [A-Z_]+ files (+.lock); everything else in .git and everything outside .git is a victim")
+	c.Assume("a reference name that runs THROUGH a directory symlink which stays inside .git (refs/heads/link -> ../../elsewhere, name refs/heads/link/x) is resolved through it by go-git and by git alike; such states are exercised and counted (followed_dir_symlink_inside_gitdir) but not reported. A symlink as the FINAL component of the reference path, and any symlink leaving .git, must not be followed")
 	c.Assume("symlinked refs/logs directories point outside .git; symlinks that stay inside .git (e.g. refs/heads -> ../hooks) are outside the domain: git follows them too and planting them needs write access to .git")
 	c.Assume("names stored by fetch reach the storage through SetReference / CheckAndSetReference, which are driven directly here; the transport itself is not exercised")
 	c.Assume("Linux only: on this host '\\' is an ordinary byte, so backslash names cannot escape physically; for them only the clause 'names that could resolve elsewhere are refused' is checked (mutating calls must fail)")
